@@ -6,7 +6,7 @@ from tools.framework import Case, Err
 from harness.midi_common import *
 
 ID = "C17"
-LEAN_MODULES = ["Mingus.Props.C17", "Mingus.Tie.C17", "Mingus.Tie.C16"]
+LEAN_MODULES = ["Mingus.Props.C17", "Mingus.Props.C17Flat", "Mingus.Props.C17Trip", "Mingus.Lemmas.Float", "Mingus.Tie.C17", "Mingus.Tie.C16"]
 RULE = ("seeded random and systematic compositions as in C16, restricted to velocities 1-127 and values with whole tick counts "
         "(1,2,3,4,6,8,9,12,16,18,24,32,36,48,72,96,144,288 and dotted forms), incl. leading/inner/trailing/whole-bar rests, "
         "chords, all 30 keys, 9 meters, instruments, names: written with write_Composition to a real file and read back with "
